@@ -506,4 +506,4 @@ def run(acc, tier):
     else:
         engine.pmap(acc, shard_perms, extra=(8, 7))
         engine.pmap(acc, shard_primes, extra=(100000,))
-        engine.pmap(acc, shard_generated, extra=(500, 150, 300, 60, 1000))
+        engine.pmap(acc, shard_generated, extra=(3000, 800, 1500, 300, 5000))
